@@ -1,6 +1,7 @@
 package main
 
 import (
+	"context"
 	"encoding/json"
 	"fmt"
 	"math/rand"
@@ -11,6 +12,8 @@ import (
 	"time"
 
 	"verif/harness/hk"
+
+	mcp "trpc.group/trpc-go/trpc-mcp-go"
 )
 
 func main() {
@@ -20,6 +23,8 @@ func main() {
 			"every chain up to length 4 (quick) / 5 (thorough) over {pass, modify-request, modify-result, short-circuit with a result, short-circuit with a JSON-RPC error, fail} x " +
 			"9 methods (tools/call echo / failing tool / unknown tool, tools/list, prompts/list, resources/list, ping, initialize, unknown method) plus seeded random chains of length 5..10, " +
 			"requests of different behaviour interleaved on 8 concurrent connections per server and two sessions; three kinds of notifications per server; " +
+			"fail includes errors wrapping context.DeadlineExceeded / context.Canceled that do not stem from the HTTP request; pairs of servers built from one shared middleware slice with spare capacity; " +
+			"rounds of overlapping requests of two sessions that carry equal JSON-RPC ids (numeric and string), overlap enforced by an event-based rendezvous inside the tool; " +
 			"per-request trace keyed by a nonce in the request parameters, every stage records the context token (HTTP context function) and session it sees; " +
 			"non-trivial = a distinct (transport, option form, chain, method) with at least two stages of which one is not pass-through",
 		Run: run})
@@ -81,6 +86,13 @@ func mkStage(id int, b string, salt int) stage {
 		if salt%4 == 2 {
 			s.E = fmt.Sprintf("étape %d: erreur \\ \"interne\"", id)
 		}
+		// a failure that is / wraps a context error which does not stem from the HTTP request (a middleware's own budget)
+		if salt%4 == 3 {
+			s.Wrap, s.E = "deadline", "budget exceeded: "+context.DeadlineExceeded.Error()
+		}
+		if salt%8 == 4 {
+			s.Wrap, s.E = "canceled", "upstream gave up: "+context.Canceled.Error()
+		}
 	}
 	return s
 }
@@ -99,6 +111,10 @@ type tcase struct {
 	ans    answer
 	token  string
 	reqID  int64
+	// id-collision rounds
+	fixedID any    // JSON-RPC id to use (nil = the server's counter)
+	partner *tcase // request of another session with the same id, in flight at the same time
+	r       *rec
 }
 
 func srvKey(k kind, groups [][]int, emptyOpt bool) string {
@@ -284,46 +300,161 @@ func run(c *hk.Ctx) {
 			panic(fmt.Sprintf("server %s: %v", key, err))
 		}
 		nServers++
-		// interleave requests of different behaviour on the concurrent connections
-		perm := rand.New(rand.NewSource(c.Seed*1000003 + int64(si))).Perm(len(g))
-		jobs := make(chan int, len(g))
-		for _, i := range perm {
-			jobs <- i
-		}
-		close(jobs)
-		var wg sync.WaitGroup
-		for w := 0; w < 8; w++ {
-			wg.Add(1)
-			go func() {
-				defer wg.Done()
-				for i := range jobs {
-					runCase(s, g[i], si, i, bases[tc0.k.Name][g[i].m.Name])
-				}
-			}()
-		}
-		wg.Wait()
-		for _, tc := range g {
-			evaluate(c, s, tc, bases[tc0.k.Name][tc.m.Name])
-		}
-		runNotifications(c, s, si)
-		// nothing may have entered the chain outside the requests accounted for
-		s.reg.strayMu.Lock()
-		stray := append([]event{}, s.reg.stray...)
-		s.reg.strayMu.Unlock()
-		if len(stray) > 0 {
-			c.Violate(hk.Violation{Fingerprint: "middleware:stray-invocation:" + s.k.Name, What: "a middleware or handler ran for something that is not one of the requests sent (no nonce, no token)",
-				Input: map[string]any{"server": key}, Observed: tagsOf(stray)})
-		}
-		for _, p := range s.peers {
-			if ex := p.unexpected(); len(ex) > 0 {
-				c.Violate(hk.Violation{Fingerprint: "middleware:unsolicited-answer:" + s.k.Name, What: "the SSE stream carried a message that answers no pending request",
-					Input: map[string]any{"server": key}, Observed: ex[0]})
-			}
-		}
+		runGroup(c, s, g, si, key, bases)
 		s.close()
+	}
+	if replay == nil {
+		nServers += sharedSlicePairs(c, bases, len(order))
+		nServers += idCollisions(c, bases, len(order)+100)
 	}
 	c.SetExtra("servers", nServers)
 	c.SetExtra("cases", len(cases))
+}
+
+// runGroup runs the cases of one server on 8 concurrent connections (interleaved by a seeded permutation), evaluates
+// them, sends the notifications and checks that nothing else entered the chain.
+func runGroup(c *hk.Ctx, s *server, g []*tcase, si int, key string, bases map[string]map[string]baseline) {
+	perm := rand.New(rand.NewSource(c.Seed*1000003 + int64(si))).Perm(len(g))
+	jobs := make(chan int, len(g))
+	for _, i := range perm {
+		jobs <- i
+	}
+	close(jobs)
+	var wg sync.WaitGroup
+	for w := 0; w < 8; w++ {
+		wg.Add(1)
+		go func() {
+			defer wg.Done()
+			for i := range jobs {
+				runCase(s, g[i], si, i, bases[s.k.Name][g[i].m.Name])
+			}
+		}()
+	}
+	wg.Wait()
+	for _, tc := range g {
+		evaluate(c, s, tc, bases[s.k.Name][tc.m.Name])
+	}
+	runNotifications(c, s, si)
+	finishServer(c, s, key)
+}
+
+// finishServer: nothing may have entered the chain outside the requests accounted for.
+func finishServer(c *hk.Ctx, s *server, key string) {
+	s.reg.strayMu.Lock()
+	stray := append([]event{}, s.reg.stray...)
+	s.reg.strayMu.Unlock()
+	if len(stray) > 0 {
+		c.Violate(hk.Violation{Fingerprint: "middleware:stray-invocation:" + s.k.Name, What: "a middleware or handler ran for something that is not one of the requests sent (no nonce, no token)",
+			Input: map[string]any{"server": key}, Observed: tagsOf(stray)})
+	}
+	for _, p := range s.peers {
+		if ex := p.unexpected(); len(ex) > 0 {
+			c.Violate(hk.Violation{Fingerprint: "middleware:unsolicited-answer:" + s.k.Name, What: "the SSE stream carried a message that answers no pending request",
+				Input: map[string]any{"server": key}, Observed: ex[0]})
+		}
+	}
+}
+
+// sharedSlicePairs: two servers built from ONE caller-owned middleware slice with spare capacity,
+//   common := append(make([]mcp.Middleware, 0, 4), m0, m1, m2)
+//   server1 = New(WithMiddleware(common...), WithMiddleware(m3));  server2 = New(WithMiddleware(common...), WithMiddleware(m13))
+// Both are built before any request is sent; each server's chain must be exactly what it was configured with.
+func sharedSlicePairs(c *hk.Ctx, bases map[string]map[string]baseline, si0 int) int {
+	n := 0
+	for ki, k := range kinds {
+		reg := &registry{}
+		common := append(make([]mcp.Middleware, 0, 4), reg.middleware(0), reg.middleware(1), reg.middleware(2))
+		owns := []int{3, 13}
+		var srvs []*server
+		for _, own := range owns {
+			s, err := newServerWith(k, [][]int{{0, 1, 2}, {own}}, false, reg, [][]mcp.Middleware{common, {reg.middleware(own)}})
+			if err != nil {
+				panic(fmt.Sprintf("shared-slice server %s: %v", k.Name, err))
+			}
+			srvs = append(srvs, s)
+		}
+		for i, s := range srvs {
+			own := owns[i]
+			var g []*tcase
+			for bi, b := range behKinds {
+				for ci, cb := range []string{"pass", "modReq", "modRes"} {
+					for _, m := range []*methodSpec{methods[0], methods[3], methods[6]} {
+						plan := []stage{mkStage(0, cb, ci), mkStage(1, "pass", 0), mkStage(2, behKinds[(bi+ci)%3], bi), mkStage(own, b, bi+ci)}
+						g = append(g, &tcase{k: k, groups: s.groups, plan: plan, m: m, which: len(g) % 2, tags: []string{"shared-slice"}})
+					}
+				}
+			}
+			runGroup(c, s, g, si0+10*ki+i, fmt.Sprintf("%s|shared-slice|own=%d", k.Name, own), bases)
+			n++
+		}
+		for _, s := range srvs {
+			s.close()
+		}
+	}
+	return n
+}
+
+// idCollisions: every session counts its JSON-RPC ids from 1 (and some clients use the same string ids), so requests of
+// different sessions that are in flight at the same time carry EQUAL ids. Rounds of two tools/call requests, one per
+// session, same id; the tool handler of each waits (bounded, event-based) until the other request is inside the chain
+// too, so the two really overlap. Every stage and the tool must see the request's own session.
+func idCollisions(c *hk.Ctx, bases map[string]map[string]baseline, si0 int) int {
+	rounds := 24
+	if c.Thorough() {
+		rounds = 200
+	}
+	n := 0
+	for ki, k := range kinds {
+		if k.Tr != "streamable" || k.Mode == "sessionsOff" {
+			continue
+		}
+		for fi, groups := range [][][]int{{{0}}, {{0, 1}, {2}}} {
+			s, err := newServer(k, groups, false)
+			if err != nil {
+				panic(fmt.Sprintf("id-collision server %s: %v", k.Name, err))
+			}
+			n++
+			si := si0 + 10*ki + fi
+			var all []*tcase
+			for r := 0; r < rounds; r++ {
+				var id any = r + 1
+				if r%3 == 2 {
+					id = fmt.Sprintf("req-%d", r/3+1)
+				}
+				var pair []*tcase
+				for w := 0; w < 2; w++ {
+					var plan []stage
+					for _, grp := range groups {
+						for _, sid := range grp {
+							plan = append(plan, mkStage(sid, behKinds[(r+sid+w)%3], r))
+						}
+					}
+					pair = append(pair, &tcase{k: k, groups: groups, plan: plan, m: methods[0], which: w, fixedID: id, tags: []string{"id-collision"}})
+				}
+				b := bases[k.Name][methods[0].Name]
+				for w, tc := range pair {
+					prepareCase(s, tc, si, 2*r+w, b)
+				}
+				pair[0].r.partner, pair[1].r.partner = pair[1].r, pair[0].r
+				var wg sync.WaitGroup
+				for _, tc := range pair {
+					wg.Add(1)
+					go func(tc *tcase) {
+						defer wg.Done()
+						sendCase(s, tc)
+					}(tc)
+				}
+				wg.Wait()
+				all = append(all, pair...)
+			}
+			for _, tc := range all {
+				evaluate(c, s, tc, bases[k.Name][tc.m.Name])
+			}
+			finishServer(c, s, fmt.Sprintf("%s|id-collision|%d", k.Name, fi))
+			s.close()
+		}
+	}
+	return n
 }
 
 func optsJSON(groups [][]int, plan []stage) []any {
@@ -343,15 +474,31 @@ func optsJSON(groups [][]int, plan []stage) []any {
 }
 
 func runCase(s *server, tc *tcase, si, i int, b baseline) {
+	prepareCase(s, tc, si, i, b)
+	sendCase(s, tc)
+}
+
+func prepareCase(s *server, tc *tcase, si, i int, b baseline) {
 	nonce := fmt.Sprintf("n-%d-%d", si, i)
 	tc.token = "tok-" + nonce
-	r := &rec{nonce: nonce, token: tc.token, plan: map[int]stage{}, m: tc.m, base: b.base}
+	r := &rec{nonce: nonce, token: tc.token, plan: map[int]stage{}, m: tc.m, base: b.base, entered: make(chan struct{})}
 	for _, st := range tc.plan {
 		r.plan[st.ID] = st
 	}
+	tc.r = r
 	s.reg.register(r)
-	tc.reqID = s.nextID.Add(1)
-	body := map[string]any{"jsonrpc": "2.0", "id": tc.reqID, "method": tc.m.Method, "params": tc.m.params(nonce)}
+}
+
+func sendCase(s *server, tc *tcase) {
+	r := tc.r
+	var id any
+	if tc.fixedID != nil {
+		id = tc.fixedID
+	} else {
+		tc.reqID = s.nextID.Add(1)
+		id = tc.reqID
+	}
+	body := map[string]any{"jsonrpc": "2.0", "id": id, "method": tc.m.Method, "params": tc.m.params(r.nonce)}
 	tc.ans = s.send(body, tc.token, tc.which, tc.newSess, true)
 	tc.events = r.snapshot()
 	s.reg.unregister(r)
@@ -516,8 +663,15 @@ func evaluate(c *hk.Ctx, s *server, tc *tcase, b baseline) {
 		c.Violate(hk.Violation{Fingerprint: fp + suffix, What: what, Input: input, Observed: gotResp, Expected: wantResp})
 	}
 	if tc.ans.msg != nil {
-		if id, ok := tc.ans.msg["id"].(float64); !ok || int64(id) != tc.reqID {
-			c.Violate(hk.Violation{Fingerprint: "middleware:answer-id" + suffix, What: "the answer does not carry the request's id", Input: input, Observed: tc.ans.msg["id"], Expected: tc.reqID})
+		var wantID any = float64(tc.reqID)
+		switch x := tc.fixedID.(type) {
+		case int:
+			wantID = float64(x)
+		case string:
+			wantID = x
+		}
+		if tc.ans.msg["id"] != wantID {
+			c.Violate(hk.Violation{Fingerprint: "middleware:answer-id" + suffix, What: "the answer does not carry the request's id", Input: input, Observed: tc.ans.msg["id"], Expected: wantID})
 		}
 	}
 	// 3. own context, own session, consistent view of the request
@@ -543,6 +697,9 @@ func evaluate(c *hk.Ctx, s *server, tc *tcase, b baseline) {
 			if (wantSid != "" && seen != wantSid) || seen != first {
 				c.Violate(hk.Violation{Fingerprint: "middleware:foreign-session" + suffix, What: "a stage saw a session that is not the request's", Input: input, Observed: seen, Expected: wantSid})
 			}
+		}
+		if e.T == "h" && e.HasP && e.CSid == "" && tc.k.Mode != "sessionsOff" {
+			c.Violate(hk.Violation{Fingerprint: "middleware:handler-without-session" + suffix, What: "the tool ran without the client session of the request that caused it (ClientSessionFromContext is nil inside the tool)", Input: input, Observed: e.CSid, Expected: wantSid})
 		}
 		if e.Sid == "" && e.CSid == "" && tc.k.Mode != "sessionsOff" {
 			c.Violate(hk.Violation{Fingerprint: "middleware:no-session" + suffix, What: "a stage could retrieve the request's session neither through GetSessionFromContext nor through ClientSessionFromContext", Input: input, Observed: e.T})
@@ -667,6 +824,7 @@ func replayCases(in map[string]any) []*tcase {
 			}
 			st.Msg, _ = pm["msg"].(string)
 			st.E, _ = pm["e"].(string)
+			st.Wrap, _ = pm["wrap"].(string)
 			plan = append(plan, st)
 		}
 	}
